@@ -284,6 +284,8 @@ def classify(h, k, impl, ref, fresh):
     if x == "<missing>" or y == "<missing>" or "panic" in y.split("|"):
         return "stream"
     px, py = x.split("|"), y.split("|")
+    if (k < len(fresh) and fresh[k] != "1") or re.search(r"-[12]0000\d\d", x):
+        return "asslice-aliased"       # a slice returned by AsSlice shares memory with the list
     if px[0] != py[0]:
         ex, ey = px[0].startswith("e:"), py[0].startswith("e:")
         if ex != ey:
